@@ -379,6 +379,77 @@ def r12_5(ctx, counts: dict[str, int]) -> RuleResult:
     return res
 
 
+def r12_6(ctx, counts: dict[str, int]) -> RuleResult:
+    """the flags argument is a set of letters: order and repetition do not matter"""
+    from ..engine.cfg import assigned_names
+    model: Model = ctx.model
+    res = RuleResult(
+        'R12.6', 'FLAGS-ARE-A-SET',
+        'The $flags argument of fn:matches / replace / tokenize / analyze-string is a set of '
+        'letters (F&O 5.6.2): "qi" and "iq" mean the same, and so do "q" and "qq". In every loop '
+        'over the characters of the flags string (a loop whose body dispatches on the character '
+        'with `c in "smix"` / `c == "q"`) each branch therefore only accumulates: `v |= e`, or '
+        '`v = <constant>`, or raises; no statement or test in the loop reads a variable that the '
+        'loop writes (what has been seen so far depends on the order), and no `v = f(v)` update '
+        'appears (it is applied once per repetition: re.escape() of an escaped pattern).')
+    n = 0
+    for f in sorted(model.all_functions(), key=lambda q: q.key):
+        if not f.module.name.startswith('elementpath.xpath'):
+            continue
+        for lp in walk_local(f.node):
+            if not isinstance(lp, ast.For) or not isinstance(lp.target, ast.Name):
+                continue
+            c = lp.target.id
+            dispatch = [t for t in ast.walk(lp) if isinstance(t, ast.Compare)
+                        and isinstance(t.left, ast.Name) and t.left.id == c and len(t.ops) == 1
+                        and isinstance(t.comparators[0], ast.Constant)
+                        and isinstance(t.comparators[0].value, str)
+                        and set(t.comparators[0].value) <= set('smixq;j')
+                        and t.comparators[0].value]
+            if not dispatch or not any('flag' in stmt_text(x).lower() for x in ast.walk(lp)
+                                       if isinstance(x, (ast.Constant, ast.Name))):
+                continue
+            n += 1
+            written: set[str] = set()
+            for st in ast.walk(lp):
+                if isinstance(st, (ast.Assign, ast.AugAssign, ast.AnnAssign)):
+                    for t in (st.targets if isinstance(st, ast.Assign) else [st.target]):
+                        written |= set(assigned_names(t))
+            written.discard(c)
+            bad: list[tuple[ast.AST, str]] = []
+            for st in [x for b in lp.body for x in ast.walk(b)]:
+                if isinstance(st, ast.AugAssign):
+                    if not isinstance(st.op, ast.BitOr):
+                        bad.append((st, 'is not an accumulation with |='))
+                    reads = {y.id for y in ast.walk(st.value) if isinstance(y, ast.Name)}
+                    if reads & written:
+                        bad.append((st, f'reads {sorted(reads & written)} written by the loop'))
+                elif isinstance(st, (ast.Assign, ast.AnnAssign)) and st.value is not None:
+                    reads = {y.id for y in ast.walk(st.value) if isinstance(y, ast.Name)}
+                    if reads & written:
+                        bad.append((st, f'is computed from {sorted(reads & written)}, which the '
+                                        f'loop writes: applied once per repetition and dependent '
+                                        f'on what was seen before'))
+                elif isinstance(st, (ast.If, ast.IfExp, ast.While)):
+                    reads = {y.id for y in ast.walk(st.test) if isinstance(y, ast.Name)}
+                    if reads & written:
+                        bad.append((st.test, f'tests {sorted(reads & written)}, which holds only '
+                                             f'the flags seen so far'))
+            res.instances.append(f'{f.key}: flags loop at L{lp.lineno} over `{c}`, writes '
+                                 f'{sorted(written)}: order/repetition independent: {not bad}')
+            if not bad:
+                res.ok()
+            for node, why in bad:
+                res.fail(finding('R12.6', f, node, 'flags loop: ' + stmt_text(node)[:30],
+                                 f'in the loop over the flags string `{stmt_text(node)[:60]}` '
+                                 f'{why}; the flags are a set, so "qi" / "iq" and "q" / "qq" must '
+                                 f'give the same result'))
+    counts['flag_loops'] = n
+    if n < 4:
+        raise AnalysisError(f'flags loops located: {n} < 4')
+    return res
+
+
 def run(ctx) -> dict:
     counts: dict[str, int] = {}
     from .c13_unicode import r13_3
@@ -387,7 +458,7 @@ def run(ctx) -> dict:
     from .c13_unicode import r13_7
     results = [r12_1(ctx, counts), r12_2(ctx, counts), r13_3(ctx, counts), r12_4(ctx, counts),
                r13_4(ctx, counts), r12_5(ctx, counts), r13_6(ctx, counts),
-               r13_7(ctx, counts)]
+               r13_7(ctx, counts), r12_6(ctx, counts)]
     # process-wide state is written only by the reviewed inventory (no new caches)
     from .c19_global import r19_5 as _r19_5
     _state = _r19_5(ctx, counts, lambda f: f.module.name.startswith('elementpath.regex'), 2)
